@@ -111,11 +111,14 @@ def pairwise (legal : String → String → Bool) : List String → Bool
   | a :: b :: t => legal a b && pairwise legal (b :: t)
   | _ => true
 
-/-- C10: each node history starts at tmin, is time-ordered, only makes legal moves -/
-def histWF (sir : Bool) (tmin : Rat) (h : Hist) : Bool :=
+/-- C10: each node history starts at tmin, is time-ordered, only makes legal moves (`legal` = the allowed
+(from,to) pairs: S→I, I→R for SIR; S→I, I→S for SIS; the spec edges for the generic simulators) -/
+def histWFg (legal : List (String × String)) (tmin : Rat) (h : Hist) : Bool :=
   (h.head?.map (·.1)) == some tmin && histTimesOrdered h
-  && pairwise (if sir then legalSIR else legalSIS) (h.map (·.2))
-  && (match h.head? with | some (_, s) => s == "S" || s == "I" || (sir && s == "R") | none => false)
+  && pairwise (fun a b => legal.contains (a, b)) (h.map (·.2))
+
+def histWF (sir : Bool) (tmin : Rat) (h : Hist) : Bool :=
+  histWFg (if sir then [("S", "I"), ("I", "R")] else [("S", "I"), ("I", "S")]) tmin h
 
 /-- sorted distinct times of all histories -/
 def insertSorted (x : Rat) : List Rat → List Rat
@@ -141,6 +144,18 @@ def collapse (tr : Traj) : Traj :=
   { times := keep.map fun i => tr.times.getD i 0, cols := tr.cols.map fun c => keep.map fun i => c.getD i 0 }
 
 def trajEq (a b : Traj) : Bool := a.times == b.times && a.cols == b.cols
+
+/-- the arrays (equal-time rows collapsed to the last) describe the same step function as the node histories:
+every change time of the histories is an array time, and each array row equals the status counts at its time.
+`strict`: additionally every array time is a change time (continuous-time simulators: one event per row). -/
+def arraysMatch (strict : Bool) (tr : Traj) (hs : List Hist) (statuses : List String) : Bool :=
+  let c := collapse tr
+  let ts := allTimes hs
+  ts.all (fun t => c.times.contains t)
+  && (!strict || c.times == ts)
+  && c.cols.length == statuses.length
+  && allIdx c.times.length (fun i =>
+      row c.cols i == statuses.map (fun s => countAt hs (c.times.getD i 0) s))
 
 /-! ### transmissions (C09) -/
 
@@ -185,9 +200,27 @@ def reachesRoot (trs : List Trans) (fuel : Nat) (v : Node) : Bool :=
       | none => true
       | some u => reachesRoot trs f u
 
-/-- C09 for the SIR/SIS simulators.  `shift` = 1 for the discrete-time simulators (change at the step after the
-contact), 0 otherwise.  `succ u` = out-neighbours of `u`. -/
-def transmissionsValid (sir : Bool) (shift : Rat) (N : Nat) (succ : Node → List Node) (tmin : Rat)
+/-- model specification relevant for C09: `induced` lists triples `(a, b, c)` — a neighbour of status `a` turns a
+node of status `b` into `c`; `spont` lists the spontaneous moves `(b, c)`. -/
+structure TVSpec where
+  induced : List (String × String × String)
+  spont : List (String × String)
+
+def sirSpec : TVSpec := { induced := [("I", "S", "I")], spont := [("I", "R")] }
+def sisSpec : TVSpec := { induced := [("I", "S", "I")], spont := [("I", "S")] }
+
+/-- number of changes `b → c` in a history for which `ok b c` -/
+def changeCount (h : Hist) (ok : String → String → Bool) : Nat :=
+  ((List.range h.length).filter fun i =>
+    match h[i]?, h[i + 1]? with
+    | some (_, a), some (_, b) => ok a b
+    | _, _ => false).length
+
+/-- C09.  `shift` = 1 for the discrete-time simulators (the change happens at the step after the contact step),
+0 otherwise.  `succ u` = out-neighbours of `u`.  `initInf` = the initially infected nodes (source-less entries are
+allowed exactly for them, once each, at `tmin`); `forest` = SIR (each node infected at most once; following the
+infectors reaches an initial node). -/
+def transmissionsValid (spec : TVSpec) (forest : Bool) (shift : Rat) (N : Nat) (succ : Node → List Node) (tmin : Rat)
     (initInf : List Node) (hs : List Hist) (trs : List Trans) : Bool :=
   let h := fun (v : Node) => hs.getD v []
   nondecreasing (trs.map (·.t))
@@ -195,15 +228,19 @@ def transmissionsValid (sir : Bool) (shift : Rat) (N : Nat) (succ : Node → Lis
       match e.src with
       | some u =>
           (succ u).contains e.tgt
-          && hasStatusClosed (h u) "I" e.t
-          && changesAt (h e.tgt) "S" "I" (e.t + shift)
-      | none => initInf.contains e.tgt && e.t == tmin)
-  -- completeness: per node, as many sourced entries as induced S→I changes; one source-less entry per initial node
+          && spec.induced.any (fun (a, b, c) =>
+              hasStatusClosed (h u) a e.t && changesAt (h e.tgt) b c (e.t + shift))
+      | none => initInf.contains e.tgt && e.t + shift == tmin)
+  -- completeness: every change that only a neighbour can induce has an entry, and there are never more entries
+  -- than induced-type changes; one source-less entry per initial node
   && allIdx N (fun v =>
-      ((trs.filter fun e => e.tgt == v && e.src.isSome).length == inducedCount (h v) "S" "I")
+      let k := (trs.filter fun e => e.tgt == v && e.src.isSome).length
+      let must := changeCount (h v) (fun b c => spec.induced.any (fun (_, b', c') => b == b' && c == c')
+                                               && !spec.spont.contains (b, c))
+      let may := changeCount (h v) (fun b c => spec.induced.any (fun (_, b', c') => b == b' && c == c'))
+      must ≤ k && k ≤ may
       && ((trs.filter fun e => e.tgt == v && e.src.isNone).length == (if initInf.contains v then 1 else 0)))
-  -- SIR: forest rooted at the initially infected nodes
-  && (!sir || (allIdx N (fun v => (trs.filter fun e => e.tgt == v).length ≤ 1)
+  && (!forest || (allIdx N (fun v => (trs.filter fun e => e.tgt == v).length ≤ 1)
                && trs.all (fun e => reachesRoot trs (N + 1) e.tgt)))
 
 /-! ### initial conditions (C05) -/
